@@ -1195,3 +1195,19 @@ for _pid in ('C13', 'C03'):
         (SV,) + _LOCK_SITE, (SV,) + _LOCK_SET, (SV, _LOCK_REL_OLD, _LOCK_REL_NEW % 'False if released else self.__powertrain_is_locked')])
 multi('C13', 'lock-decision-returned-with-branches-swapped', 'mutant', [
     (SV,) + _LOCK_SITE, (SV,) + _LOCK_SET, (SV, _LOCK_REL_OLD, _LOCK_REL_NEW % 'self.__powertrain_is_locked if released else False')], 'C13')
+_DRV_OLD = """        for i in range(1, len(self.__powertrain.elements)):
+            self.__powertrain.elements[i].driving_torque = \\
+                self.__powertrain.elements[i - 1].driving_torque * \\
+                self.__powertrain.elements[i].master_gear_efficiency * \\
+                self.__powertrain.elements[i].master_gear_ratio
+"""
+_IMP = (SV, "from typing import Optional\n", "from typing import Optional\nfrom itertools import pairwise\n")
+multi('C02', 'driving-torque-by-pairwise', 'benign', [_IMP, (SV, _DRV_OLD, """        for driver, driven in pairwise(self.__powertrain.elements):
+            driven.driving_torque = driver.driving_torque * driven.master_gear_efficiency * driven.master_gear_ratio
+""")])
+multi('C02', 'driving-torque-by-pairwise-drivers-efficiency', 'mutant', [_IMP, (SV, _DRV_OLD, """        for driver, driven in pairwise(self.__powertrain.elements):
+            driven.driving_torque = driver.driving_torque * driver.master_gear_efficiency * driven.master_gear_ratio
+""")], 'C02.driving')
+multi('C02', 'driving-torque-by-pairwise-of-the-tail', 'mutant', [_IMP, (SV, _DRV_OLD, """        for driver, driven in pairwise(self.__powertrain.elements[1:]):
+            driven.driving_torque = driver.driving_torque * driven.master_gear_efficiency * driven.master_gear_ratio
+""")], 'C02')
